@@ -148,16 +148,43 @@ theorem outs_tableGrps (d : Disk) (outs : List (Nat × List Grp))
     congr 1
     exact ih (fun x hx => h x (List.mem_cons_of_mem _ hx))
 
+/-- the next-file number of a view only matters for the table numbers and the journal number -/
+theorem ViewOK.with_nf {d : Disk} {must issued : List Grp} {l : List Nat} {jn sq nf nf' : Nat}
+    (h : ViewOK d must issued ⟨l, jn, sq, nf⟩) (htl : ∀ t ∈ l, t < nf') (hj : jn < nf') :
+    ViewOK d must issued ⟨l, jn, sq, nf'⟩ :=
+  ⟨fun t ht => ⟨htl t ht, (h.tables t ht).2⟩, h.tseq, h.tdisj, h.jseq, h.tj, h.cover, hj⟩
+
+theorem Disj.symm {g h : Grp} (x : Disj g h) : Disj h g := by
+  rcases x with x | x | x
+  · exact Or.inl x.symm
+  · exact Or.inr (Or.inr x)
+  · exact Or.inr (Or.inl x)
+
+theorem mem_applyEdit {live : List Nat} {e : MRec} {t : Nat} :
+    t ∈ applyEdit live e ↔ (t ∈ live ∧ t ∉ e.deleted ∧ t ∉ e.added) ∨ t ∈ e.added := by
+  simp [applyEdit]
+
+/-- the groups of a view after an edit: those of the tables that stay, then those of the added tables -/
+theorem liveGrps_applyEdit (d : Disk) (v : MView) (e : MRec) (jn sq nf : Nat) :
+    liveGrps d ⟨applyEdit v.live e, jn, sq, nf⟩ =
+      (v.live.filter fun t => !(e.deleted.contains t) && !(e.added.contains t)).flatMap (tableGrpsOf d) ++
+      e.added.flatMap (tableGrpsOf d) := by
+  simp [liveGrps, applyEdit, List.flatMap_append]
+
 /-- the view a job's edit produces is good, once its output tables are on disk -/
 theorem ViewOK.extend {s : St} {d : Disk} {must issued : List Grp} {j : Job} {e : MRec} {v : MView}
     (hok : ViewOK d must issued v) (he : EditOK s d j e v) (hi : ∀ g ∈ issuedGrps s, g ∈ issued)
     (houts : ∀ o ∈ j.outs, lookup d.tables o.1 = some ⟨o.2, true, false⟩) (nf : Nat) (hnf : v.nf ≤ nf)
-    (hnf' : ∀ o ∈ j.outs, o.1 < nf) (hjnf : e.jn.getD 0 < nf) :
-    applyEdit v.live e = v.live ++ j.outs.map (·.1) ∧
+    (hnf' : ∀ o ∈ j.outs, o.1 < nf) (hjnf : e.jn.getD v.jn < nf) :
     ViewOK d must issued ⟨applyEdit v.live e, e.jn.getD v.jn, e.sq.getD v.sq, nf⟩ := by
-  obtain ⟨hd, ha, _, _, hjn, hsq⟩ := he.shape
-  obtain ⟨jn', ejn⟩ := Option.isSome_iff_exists.1 hjn
-  obtain ⟨sq', esq⟩ := Option.isSome_iff_exists.1 hsq
+  obtain ⟨ha, _, _⟩ := he.shape
+  obtain ⟨hdl, hdg⟩ := he.dels
+  have hskip := he.skip
+  have houtsE := he.outs
+  have hkeep := he.keep
+  have hmono := he.mono
+  generalize e.jn.getD v.jn = jn' at *
+  generalize e.sq.getD v.sq = sq' at *
   have hfresh : ∀ t ∈ e.added, t ∉ v.live := by
     intro t ht htl
     rw [ha] at ht
@@ -165,45 +192,39 @@ theorem ViewOK.extend {s : St} {d : Disk} {must issued : List Grp} {j : Job} {e 
     have := (he.fresh o ho).1
     have := (hok.tables o.1 htl).1
     omega
-  have hlive : applyEdit v.live e = v.live ++ j.outs.map (·.1) := by rw [applyEdit_fresh hd hfresh, ha]
-  refine ⟨hlive, ?_⟩
-  rw [hlive]
-  have e1 : e.jn.getD v.jn = jn' := by simp [ejn]
-  have e2 : e.sq.getD v.sq = sq' := by simp [esq]
-  have hj0 : e.jn.getD 0 = jn' := by simp [ejn]
-  have hs0 : e.sq.getD 0 = sq' := by simp [esq]
-  rw [e1, e2]
-  have hskip := he.skip
-  have houtsE := he.outs
-  have hkeep := he.keep
-  have hmono := he.mono
-  rw [hj0] at hskip hkeep hmono
-  rw [hs0] at houtsE hkeep hmono
-  have hlg : liveGrps d ⟨v.live ++ j.outs.map (·.1), jn', sq', nf⟩ = liveGrps d v ++ outsGrps j := by
-    rw [liveGrps_append, outs_tableGrps d j.outs houts]; rfl
+  have hlg : liveGrps d ⟨applyEdit v.live e, jn', sq', nf⟩ =
+      (v.live.filter fun t => !(e.deleted.contains t) && !(e.added.contains t)).flatMap (tableGrpsOf d) ++
+      outsGrps j := by
+    rw [liveGrps_applyEdit, ha, outs_tableGrps d j.outs houts]; rfl
+  have hsub : ∀ g ∈ (v.live.filter fun t => !(e.deleted.contains t) && !(e.added.contains t)).flatMap (tableGrpsOf d),
+      g ∈ liveGrps d v := by
+    intro g hg
+    obtain ⟨t, ht, hgt⟩ := List.mem_flatMap.1 hg
+    exact List.mem_flatMap.2 ⟨t, (List.mem_filter.1 ht).1, hgt⟩
   have hmj := hmono.1
   have hms := hmono.2.1
   constructor
   · intro t ht
-    simp only [List.mem_append, List.mem_map] at ht
-    rcases ht with ht | ⟨o, ho, rfl⟩
-    · obtain ⟨a, b⟩ := hok.tables t ht
+    rcases mem_applyEdit.1 ht with ⟨htl, _, _⟩ | hta
+    · obtain ⟨a, b⟩ := hok.tables t htl
       exact ⟨by simp only; omega, b⟩
-    · refine ⟨hnf' o ho, ?_⟩
+    · rw [ha] at hta
+      obtain ⟨o, ho, rfl⟩ := List.mem_map.1 hta
+      refine ⟨hnf' o ho, ?_⟩
       rw [houts o ho]; simp [Holds]
   · intro g hg
     rw [hlg, List.mem_append] at hg
     rcases hg with hg | hg
-    · obtain ⟨a, b, c⟩ := hok.tseq g hg
+    · obtain ⟨a, b, c⟩ := hok.tseq g (hsub g hg)
       exact ⟨by simp only; omega, b, c⟩
     · obtain ⟨a, b, c, _⟩ := houtsE g hg
       exact ⟨a, hi g b, c⟩
   · intro g hg g' hg'
     rw [hlg, List.mem_append] at hg hg'
     rcases hg with hg | hg <;> rcases hg' with hg' | hg'
-    · exact hok.tdisj g hg g' hg'
-    · exact Or.inr (Or.inl ((houtsE g' hg').2.2.2.1 g hg))
-    · exact Or.inr (Or.inr ((houtsE g hg).2.2.2.1 g' hg'))
+    · exact hok.tdisj g (hsub g hg) g' (hsub g' hg')
+    · exact ((houtsE g' hg').2.2.2.1 g (hsub g hg)).symm
+    · exact (houtsE g hg).2.2.2.1 g' (hsub g' hg')
     · exact (houtsE g hg).2.2.2.2 g' hg'
   · intro p hp g hg
     have hp' := mem_relJournals.1 hp
@@ -212,18 +233,25 @@ theorem ViewOK.extend {s : St} {d : Disk} {must issued : List Grp} {j : Job} {e 
     rw [hlg, List.mem_append] at hg
     have hp' := mem_relJournals.1 hp
     rcases hg with hg | hg
-    · exact hok.tj g hg p (relJournals_mono hmj hp) g' hg'
+    · exact hok.tj g (hsub g hg) p (relJournals_mono hmj hp) g' hg'
     · exact (hkeep p hp'.1 hp'.2 g' hg').2 g hg
   · intro g hg
     rw [hlg]
     rcases hok.cover g hg with h1 | ⟨p, hp, hgp⟩
-    · exact Or.inl (List.mem_append_left _ h1)
+    · obtain ⟨t, ht, hgt⟩ := List.mem_flatMap.1 h1
+      by_cases hdel : t ∈ e.deleted
+      · exact Or.inl (List.mem_append_right _ (hdg g (List.mem_flatMap.2 ⟨t, hdel, hgt⟩)))
+      · refine Or.inl (List.mem_append_left _ (List.mem_flatMap.2 ⟨t, ?_, hgt⟩))
+        rw [List.mem_filter]
+        refine ⟨ht, ?_⟩
+        have hna : t ∉ e.added := fun hx => hfresh t hx ht
+        simp [hdel, hna]
     · have hp' := mem_relJournals.1 hp
       by_cases hlt : p.1 < jn'
       · exact Or.inl (List.mem_append_right _
           (hskip p hp'.1 hp'.2 hlt g (by simp [LogFile.all, hgp])))
       · exact Or.inr ⟨p, mem_relJournals.2 ⟨hp'.1, by simp only; omega⟩, hgp⟩
   · show jn' < nf
-    rw [← hj0]; exact hjnf
+    exact hjnf
 
 end GoLevel.Dur
